@@ -239,7 +239,9 @@ func (w *worker) do(method, target string, body []byte, witness func() map[strin
 }
 
 func (w *worker) loadDB() bool {
-	m, ok := w.do("GET", "/accessories", nil, func() map[string]interface{} { return map[string]interface{}{"path": "http", "stage": "first GET /accessories"} })
+	m, ok := w.do("GET", "/accessories", nil, func() map[string]interface{} {
+		return map[string]interface{}{"path": "http", "stage": "first GET /accessories"}
+	})
 	if !ok {
 		return false
 	}
@@ -314,7 +316,7 @@ func (w *worker) put(h *httpChar, hist []string, v *hval) bool {
 	witness := func() map[string]interface{} {
 		return map[string]interface{}{"path": "http", "subject": h.sub.Name, "aid": aid, "iid": iid,
 			"served_declaration": map[string]interface{}{"format": decl.Format, "perms": decl.Perms, "minValue": string(decl.MinValue), "maxValue": string(decl.MaxValue)},
-			"puts": hist}
+			"puts":               hist}
 	}
 	r.Eval()
 	r.Nontrivial(fmt.Sprintf("http|%s|%s", h.sub.Name, strings.Join(hist, ";")))
@@ -405,7 +407,9 @@ func (w *worker) repair(h *httpChar) {
 	}
 	s := sane(decl.Format)
 	body := []byte(fmt.Sprintf(`{"characteristics":[{"aid":%d,"iid":%d,"value":%s}]}`, h.acc.ID, h.c.ID, s.JSON))
-	w.do("PUT", "/characteristics", body, func() map[string]interface{} { return map[string]interface{}{"path": "http", "stage": "repair", "subject": h.sub.Name} })
+	w.do("PUT", "/characteristics", body, func() map[string]interface{} {
+		return map[string]interface{}{"path": "http", "stage": "repair", "subject": h.sub.Name}
+	})
 	if hasPerm(h.c.Perms, "pr") {
 		fi := formats[decl.Format]
 		if h.c.Value == nil || fmt.Sprintf("%T", h.c.Value) != fi.GoType || (fi.Family == "float" && (math.IsNaN(h.c.Value.(float64)) || math.IsInf(h.c.Value.(float64), 0))) {
